@@ -86,11 +86,21 @@ def run(tier, seed):
         "expiry instants incl. the exact instant, sweeps, flush, clean reopen with the virtual clock) "
         "on a TTL-enabled store (memory, persistent v2/v3, cache on/off); distinct by content hash",
         q.sample_events(st["sample_trace"]), extra={"concurrent_schedules": cst["schedules"], "storeconc": scinfo})
+    # story: the TTL of an offloaded value is renewed AGAIN while the write-behind worker has the first renewal's
+    # generation in hand (both renewals borrow bytes that live only in the predecessor's extent): reads keep returning
+    # the value, the key stays in range scans, every flush succeeds, the expiry after the reopen is the second renewal's
+    import seqengine as _sq
+    _sv, _sn, _sst = _sq.run_stories(PROP, fxv, rd, "renewstory", 2 if tier == "quick" else 8,
+                                     "TTL renewed twice while the first renewal was being written")
+    viol = viol + _sv
     return {"level": "model_checking", "coverage": cov, "violations": viol,
             "assumptions": ["virtual clock (hook)", "sweeper driven explicitly (verif_sweep_once)"]}
 
 
 def replay(path):
+    import seqengine as _sq
+    if _sq.is_story(path):
+        return _sq.replay_story(PROP, path)
     import os
     if os.path.basename(path).startswith("expired_newest"):
         import crashengine as cre
